@@ -45,7 +45,6 @@ CLASSES = {
     # class -> short mechanism text (the long text lives in known_findings.json)
     "wal_synced_failed_commit_replayed": "the record is in the segment when the fsync of a sync commit fails; the commit fails, recovery replays it",
     "wal_durable_apply_failed_replayed": "the record is logged, memtable apply fails; recovery replays the failed commit",
-    "failed_partial_apply_visible": "apply fails after inserting a prefix of the batch; publish() advances the horizon over it",
     "vlog_write_error_swallowed": "a value-log write error is swallowed (BufWriter drop at file rotation / deferred flush): the flush succeeds, value pointers reference bytes that were never written",
     "vlog_rotation_without_fsync": "a value-log file that fills up is replaced without fsync (fault-free defect of C02/C03; a failed flush whose retry re-appends the values makes it reachable in workloads whose fault-free run never rotates)",
     "torn_vlog_file_blocks_reopen": "a failed flush leaves a value-log file with a torn header / entry; the next open refuses the directory",
@@ -1149,6 +1148,27 @@ def confirm_witnesses(ctx, res, kf):
         if v != "ok" or impl[2:2 + len(cmds)] != want_ans:
             res["violations"].append(("writer level regression %s: verdict %s, answers %s (expected ok, %s): %s" % (
                 name, v, impl[2:2 + len(cmds)], want_ans, text[:300]), rp))
+    # regression of the former finding C15-N5 (partial apply visible): the workload and the faults of its first witnesses (transactions
+    # of a third of the memtable: ArenaFull inside apply; every eio / fsync fault on wal/, transient and sticky).  At least one commit
+    # must fail in apply (CommitFail), and no probe may show anything of a failed commit (theorem C15_failed_invisible_live).
+    def T(tid, n, size, sync):
+        return ("txn", Txn(tid, [("set", "75%02x%02x" % (tid, j), "rep:%d:%d" % (size, (tid * 7 + j) & 255)) for j in range(n)], sync))
+    wl5 = Workload([T(1, 4, 500, True), T(2, 3, 700, False), T(3, 3, 500, True), T(4, 2, 700, False)], "lc=2,mem=4096", "abort", "arena")
+    ok5, why5, out5, log5, ops5, skip5 = baseline(wl5, "n5reg", "wal/")
+    if not ok5:
+        res["violations"].append(("partial-apply regression, " + why5, replay_text(wl5, None, "wal/", why5, out5, log5)))
+    else:
+        plans5 = [p for p in fault_plans(ops5, "wal/", "thorough", None, 0) if p[1] in ("eio", "fsync")]
+        n_apply = n_live = 0
+        for plan, w2, o5, l5, findings, ev in run_plans(wl5, "n5reg", "wal/", plans5, skip5):
+            n_apply += sum(1 for c_ in ev.get("causes", {}).values() if c_[0] == "apply")
+            for cls, text in findings:
+                if text.startswith("LIVE"):
+                    n_live += 1
+                    res["violations"].append(("partial-apply regression (former C15-N5): " + text, replay_text(w2, plan, "wal/", text, o5, l5)))
+        out["partial_apply_regression"] = "runs=%d commits_failed_in_apply=%d live_findings=%d" % (len(plans5), n_apply, n_live)
+        if n_apply == 0:
+            res["disagreements"].append("partial-apply regression: no commit failed in apply (CommitFail) in %d faulty runs: the scenario is not exercised any more" % len(plans5))
     # regression of the former finding C15-N9 (Conc/PipeFail_proofs.v wq_trace): one commit held inside apply, n failing commits
     # (BatchTooLarge) and one more commit, each on its own task.  The model (theorem C15_pipeline_not_poisoned, example
     # C15_former_overflow_trace) says: no panic for any n; a failing commit cannot return while an older batch is unapplied
